@@ -213,8 +213,9 @@ Print Assumptions C49_names_eq_git_partial.
        slash (slash_body: every segment a non-empty glob of Spec/Glob or "**";
        no "**" inside a segment, at the end, or not followed by "/"; no escaped
        slash; plain segments first, then groups of "**"s each followed by exactly
-       one plain segment: /a/b, a/*.c, **/x, a/**/b, /**/a/**/b ...); no blank but LF,
-       no byte order mark (nothing for the two line readers to disagree on);
+       one plain segment: /a/b, a/*.c, **/x, a/**/b, /**/a/**/b ...); pattern lines hold
+       no blank (nothing to trim; comments may), no CR, no byte order mark (nothing
+       for the two line readers to disagree on);
      path_ok path : components non-empty, without slash or NUL;
      no_reincluded_ancestor excl fs path : go-git's own decision (last match wins)
        on every proper ancestor directory of the path, from the top down to the
@@ -306,7 +307,7 @@ Proof. vm_compute. repeat split; reflexivity. Qed.
 (* a realistic set of ignore files inside the widened fragment: negation,
    anchored and inner-slash patterns, "**/" forms, POSIX classes, a nested file *)
 Example C49_wide_example :
-  let root := bytes_of_string "#products
+  let root := bytes_of_string "# build products
 *.o
 !keep.o
 /build/
